@@ -25,7 +25,14 @@
 //!   <chan> = <kind> <scid> - <src> <dst> <enabled> <htlcmin> <htlcmax|-> <cap_msat|-> <base> <prop> <cltv>   RAW data of one candidate;
 //!            kind p PublicHop, h PrivateHop (hint hop), b Blinded / o OneHopBlinded (scid = index of the blinded path, dst = 999);
 //!            a FirstHop gives the raw ChannelDetails ids: f <outbound_scid_alias|-> <short_channel_id|-> <payer> <peer> <is_usable>
-//!            <next_outbound_htlc_minimum_msat> <next_outbound_htlc_limit_msat> - 0 0 0
+//!            <next_outbound_htlc_minimum_msat> <next_outbound_htlc_limit_msat> <counterparty.outbound_htlc_minimum_msat|-> 0 0 0
+//!            (C16-r5: the counterparty's STATIC minimum is a decoy <= the current minimum; the other decoy fields of the ChannelDetails —
+//!             counterparty.outbound_htlc_maximum_msat, outbound_capacity_msat, channel_value_satoshis, inbound_capacity_msat — are pure
+//!             functions of the limit, see `channel_details`; the Lean driver rebuilds the same record, `detailsOf`)
+//!   firsthop <next_min> <next_limit> <cp_min|-> <cp_max|-> <outbound_capacity> <inbound_capacity> <value_sat> <in_min|-> <in_max|-> <announced> <scid|-> <alias|->
+//!        the accessors of the CandidateRouteHop::FirstHop the router builds from this ChannelDetails (hook verif_hooks::router::
+//!        first_hop_candidate_view) -> min <n> cap <exact n|other> scid <n|-> gscid <n|-> fees <b> <p> cltv <n>; the Lean driver answers from the
+//!        TRANSLATED FirstHop arms (Generated/RouterFirstHop.lean); impl oracle: minimum / liquidity are the CURRENT ones of the ChannelDetails
 //!   a BlindedTail is the last element of its path: <index of the blinded path> 999 <final_value_msat> 0 1
 //! The public candidates on the line are dumped from `NetworkGraph::read_only()` (not from what the generator sent).
 //! C16b: `PROBES` = deterministic minimal inputs of the known findings KF-C16-7 … 11 (and of the corrected false alarm FA-C16-7/A), run through
@@ -745,18 +752,32 @@ fn record(rec: &mut Rec, st: &mut Stats, w: &World, g: &[Chan], gs: &str, q: &Re
 	}
 }
 
+/// DECOY fields of a supplied ChannelDetails (C16-r5): the values a FirstHop candidate must NOT read, set apart from the ones it must
+/// (next_outbound_htlc_minimum_msat / next_outbound_htlc_limit_msat), as in a live channel: the counterparty's STATIC htlc minimum is
+/// at most the current minimum (tx_builder raises the latter when dust HTLCs can no longer be sent; `None` for pre-0.0.107 data), its
+/// static maximum and our outbound capacity are above the current limit. Pure functions of (limit, min) so that a replayed line
+/// rebuilds the same ChannelDetails; the Lean driver applies the same formulas (Driver/C16.lean `detailsOf`).
+fn decoy_cp_min(limit: u64, min: u64) -> Option<u64> { match (limit ^ min.rotate_left(7) ^ (min >> 3)) % 5 { 0 => None, 1 => Some(0), 2 => Some(min / 2), 3 => Some(min.saturating_sub(1)), _ => Some(min) } }
+fn decoy_cp_max(limit: u64) -> Option<u64> { Some(limit.saturating_mul(3).saturating_add(11)) }
+fn decoy_outbound_capacity(limit: u64) -> u64 { limit.saturating_mul(2).saturating_add(7) }
+fn decoy_channel_value_sat(limit: u64) -> u64 { limit / 500 + 8 }
+const DECOY_INBOUND_CAPACITY: u64 = 42;
+
 fn channel_details(peer: PublicKey, scid: Option<u64>, alias: Option<u64>, limit: u64, min: u64, announced: bool) -> ChannelDetails {
+	channel_details_raw(peer, scid, alias, limit, min, announced, decoy_cp_min(limit, min), decoy_cp_max(limit), decoy_outbound_capacity(limit), DECOY_INBOUND_CAPACITY, decoy_channel_value_sat(limit), None, None)
+}
+fn channel_details_raw(peer: PublicKey, scid: Option<u64>, alias: Option<u64>, limit: u64, min: u64, announced: bool, cp_min: Option<u64>, cp_max: Option<u64>, out_cap: u64, in_cap: u64, value_sat: u64, in_min: Option<u64>, in_max: Option<u64>) -> ChannelDetails {
 	#[allow(deprecated)]
 	ChannelDetails {
 		channel_id: ChannelId::new_zero(),
-		counterparty: ChannelCounterparty { features: InitFeatures::empty(), node_id: peer, unspendable_punishment_reserve: 0, forwarding_info: None, outbound_htlc_minimum_msat: None, outbound_htlc_maximum_msat: None },
+		counterparty: ChannelCounterparty { features: InitFeatures::empty(), node_id: peer, unspendable_punishment_reserve: 0, forwarding_info: None, outbound_htlc_minimum_msat: cp_min, outbound_htlc_maximum_msat: cp_max },
 		funding_txo: None, funding_redeem_script: None, channel_type: None,
 		short_channel_id: scid, outbound_scid_alias: alias, inbound_scid_alias: None,
-		channel_value_satoshis: limit / 500 + 8, user_channel_id: 0, outbound_capacity_msat: limit.saturating_mul(2).saturating_add(7),
+		channel_value_satoshis: value_sat, user_channel_id: 0, outbound_capacity_msat: out_cap,
 		next_outbound_htlc_limit_msat: limit, next_outbound_htlc_minimum_msat: min, next_splice_out_maximum_sat: limit / 1000,
-		inbound_capacity_msat: 42, unspendable_punishment_reserve: None, confirmations_required: None, confirmations: None,
+		inbound_capacity_msat: in_cap, unspendable_punishment_reserve: None, confirmations_required: None, confirmations: None,
 		force_close_spend_delay: None, is_outbound: true, is_channel_ready: true, is_usable: true, is_announced: announced,
-		inbound_htlc_minimum_msat: None, inbound_htlc_maximum_msat: None, config: None, feerate_sat_per_1000_weight: None,
+		inbound_htlc_minimum_msat: in_min, inbound_htlc_maximum_msat: in_max, config: None, feerate_sat_per_1000_weight: None,
 		channel_shutdown_state: Some(ChannelShutdownState::NotShuttingDown), pending_inbound_htlcs: Vec::new(), pending_outbound_htlcs: Vec::new(),
 		current_dust_exposure_msat: None, splice_details: None,
 	}
@@ -809,14 +830,14 @@ fn ext_request(rng: &mut Rng, w: &World, secp: &Secp256k1<bitcoin::secp256k1::Al
 				details.push(channel_details(w.pks[peer], scid, alias, limit, min, announced));
 				let out = alias.or(scid).unwrap();
 				own.push((peer, out, if alias.is_some() { scid } else { None }));
-				g.push(Chan { kind: Kind::First, scid: out, alt: if alias.is_some() { scid } else { None }, src: payer, dst: peer, enabled: true, hmin: min, hmax: limit, unbounded: false, cap: None, base: 0, prop: 0, cltv: 0 });
+				g.push(Chan { kind: Kind::First, scid: out, alt: if alias.is_some() { scid } else { None }, src: payer, dst: peer, enabled: true, hmin: min, hmax: limit, unbounded: false, cap: decoy_cp_min(limit, min), base: 0, prop: 0, cltv: 0 });
 			}
 		}
 		if details.is_empty() { // always at least one channel
 			let peer = (payer + 1) % n;
 			details.push(channel_details(w.pks[peer], Some(1_000_099), Some(2_000_099), amt.saturating_mul(3), 0, false));
 			own.push((peer, 2_000_099, Some(1_000_099)));
-			g.push(Chan { kind: Kind::First, scid: 2_000_099, alt: Some(1_000_099), src: payer, dst: peer, enabled: true, hmin: 0, hmax: amt.saturating_mul(3), unbounded: false, cap: None, base: 0, prop: 0, cltv: 0 });
+			g.push(Chan { kind: Kind::First, scid: 2_000_099, alt: Some(1_000_099), src: payer, dst: peer, enabled: true, hmin: 0, hmax: amt.saturating_mul(3), unbounded: false, cap: decoy_cp_min(amt.saturating_mul(3), 0), base: 0, prop: 0, cltv: 0 });
 		}
 	}
 	let finalcltv = *rng.pick(&[0u32, 18, 40, 144]);
@@ -975,7 +996,50 @@ const PROBES: &[(&str, &str, &str)] = &[
 	// by max_final_value_msat, raised back to 5 by update_value_and_recompute_fees, booked as 4: the second path takes the "remaining" 5
 	("KF-C16-11 raise to the first hop's own minimum not booked", "two paths that carry 5 + 5 = 10 msat over the first hop whose next_outbound_htlc_limit_msat is 9",
 	 "noroute 0 2 6 - 1008 2 19 40 1 1 0 1 0 X 0 B 0 G 9 p 10 - 1 3 1 0 5 - 0 0 40 p 10 - 3 1 1 0 5 - 0 0 40 p 11 - 3 2 1 0 1000000 - 1 1 40 p 11 - 2 3 1 0 1000000 - 0 0 40 p 12 - 1 4 1 0 5 - 0 0 40 p 12 - 4 1 1 0 5 - 0 0 40 p 13 - 4 2 1 0 1000000 - 1 1 40 p 13 - 2 4 1 0 1000000 - 0 0 40 f 2000001 1000001 0 1 1 5 9 - 0 0 0"),
+	// C16-r5: the payer's only channel (to node 1) currently cannot carry less than 1_000_000 msat (dust exposure nearly used up) although the
+	// peer's static htlc_minimum is far lower (the decoy counterparty.outbound_htlc_minimum_msat); 100_000 msat cannot be raised to it
+	("FA-C16-r5/a first hop whose CURRENT minimum is above the amount (peer's static minimum below it)", "no route (a route carrying 100000 msat over the first hop would be below its next_outbound_htlc_minimum_msat)",
+	 "noroute 0 2 100000 - 1008 1 19 40 1 0 0 1 0 X 0 B 0 G 3 p 2 - 1 2 1 0 1000000000 - 0 0 40 p 2 - 2 1 1 0 1000000000 - 0 0 40 f 2000001 1000001 0 1 1 1000000 10000004 0 0 0 0"),
+	// as before plus an unrestricted second channel to the same peer: the payment must go over that one
+	("FA-C16-r5/b restricted first hop next to an unrestricted one to the same peer", "VALID route 0 -> 1 -> 2 whose first hop is channel 2000002",
+	 "noroute 0 2 100000 - 1008 1 19 40 1 0 0 1 0 X 0 B 0 G 4 p 2 - 1 2 1 0 1000000000 - 0 0 40 p 2 - 2 1 1 0 1000000000 - 0 0 40 f 2000001 1000001 0 1 1 1000000 10000003 - 0 0 0 f 2000002 1000002 0 1 1 1000 250000000 999 0 0 0"),
 ];
+
+/// C16-r5: the accessors of the FirstHop candidate built from one ChannelDetails (all fields on the line, decoys independent of each other)
+fn first_hop_cases(rec: &mut Rec, rng: &mut Rng, w: &World, n: usize) {
+	let o = |x: Option<u64>| x.map_or("-".to_string(), |k| k.to_string());
+	// at most KF_CAP reports per kind of failure (all are counted in the notes): the recorder keeps 50 messages and the route-level failures must not be crowded out
+	let (mut n_min, mut n_cap, mut n_fee) = (0u64, 0u64, 0u64);
+	for i in 0..n {
+		let big = |rng: &mut Rng| match rng.below(6) { 0 => 0, 1 => rng.range(1, 1000), 2 => 1000 * rng.range(1, 100_000), 3 => rng.range(1, 5_000_000_000), 4 => u64::MAX - rng.below(3), _ => rng.range(1, 50_000_000) };
+		let min = big(rng);
+		let limit = match rng.below(4) { 0 => near(rng, min), 1 => min.saturating_add(big(rng)), _ => big(rng) };
+		// the static minimum: below / at / above the current one, or absent; the other fields: anything
+		let cp_min = match rng.below(6) { 0 => None, 1 => Some(0), 2 => Some(min / 2), 3 => Some(min), 4 => Some(min.saturating_add(rng.range(1, 1000))), _ => Some(big(rng)) };
+		let cp_max = match rng.below(4) { 0 => None, 1 => Some(limit), 2 => Some(limit / 2), _ => Some(big(rng)) };
+		let (out_cap, in_cap, value_sat) = (match rng.below(3) { 0 => limit, 1 => limit.saturating_add(big(rng)), _ => big(rng) }, big(rng), big(rng) / 1000 + 1);
+		let in_min = if rng.chance(1, 2) { None } else { Some(big(rng)) };
+		let in_max = if rng.chance(1, 2) { None } else { Some(big(rng)) };
+		let announced = rng.chance(1, 2);
+		let (scid, alias) = match rng.below(4) { 0 => (Some(rng.range(1, 50)), None), 1 => (None, Some(2_000_000 + i as u64)), _ => (Some(rng.range(1, 50)), Some(2_000_000 + i as u64)) };
+		let d = channel_details_raw(w.pks[1], scid, alias, limit, min, announced, cp_min, cp_max, out_cap, in_cap, value_sat, in_min, in_max);
+		let op = format!("firsthop {} {} {} {} {} {} {} {} {} {} {} {}", min, limit, o(cp_min), o(cp_max), out_cap, in_cap, value_sat, o(in_min), o(in_max), announced as u8, o(scid), o(alias));
+		match guarded(AssertUnwindSafe(|| lightning::ln::verif_hooks::router::first_hop_candidate_view(&d))) {
+			Ok((m, cap, sc, gsc, fees, cltv)) => {
+				let liq = match cap { EffectiveCapacity::ExactLiquidity { liquidity_msat } => Some(liquidity_msat), _ => None };
+				// the property on what the real accessors returned: "every hop carries at least that channel's minimum and … no more than its maximum":
+				// for a supplied first hop these are the CURRENT bounds of the ChannelDetails, and our own channel costs nothing
+				if m < d.next_outbound_htlc_minimum_msat { n_min += 1; kf_fail(rec, n_min, format!("CandidateRouteHop::FirstHop: htlc_minimum_msat() = {} is BELOW the supplied ChannelDetails' next_outbound_htlc_minimum_msat {} (counterparty.outbound_htlc_minimum_msat {:?}): a route may carry less than the channel's current minimum over this first hop | {}", m, d.next_outbound_htlc_minimum_msat, cp_min, op)); }
+				if liq.map_or(true, |l| l > d.next_outbound_htlc_limit_msat) { n_cap += 1; kf_fail(rec, n_cap, format!("CandidateRouteHop::FirstHop: effective_capacity() = {:?} allows more than the supplied ChannelDetails' next_outbound_htlc_limit_msat {}: a route may carry more than the channel's current maximum over this first hop | {}", cap, d.next_outbound_htlc_limit_msat, op)); }
+				if fees != (0, 0) || cltv != 0 { n_fee += 1; kf_fail(rec, n_fee, format!("CandidateRouteHop::FirstHop: fees {:?} / cltv_expiry_delta {} for our own channel | {}", fees, cltv, op)); }
+				let class = format!("firsthop:static-min-{}/{}", match cp_min { None => "absent", Some(x) if x < min => "below-current", Some(x) if x == min => "equal", _ => "above-current" }, if limit < min { "limit<min" } else { "limit>=min" });
+				rec.case(&op, &format!("min {} cap {} scid {} gscid {} fees {} {} cltv {}", m, liq.map_or("other".to_string(), |l| format!("exact {}", l)), o(sc), o(gsc), fees.0, fees.1, cltv), &class, cp_min != Some(min));
+			},
+			Err(p) => { rec.case(&op, &format!("panic {}", p.replace('\n', " ")), "firsthop:panic", true); },
+		}
+	}
+	rec.notes.insert("firsthop".into(), format!("{} ChannelDetails with independently drawn fields through the real CandidateRouteHop::FirstHop accessors: minimum below the current one {} times, liquidity above the current limit {} times, fees/cltv non-zero {} times (at most {} reported each)", n, n_min, n_cap, n_fee, KF_CAP));
+}
 
 fn router_model(args: &Args) {
 	let mut rec = Rec::new(&args.out, "c16router");
@@ -1003,6 +1067,7 @@ fn router_model(args: &Args) {
 		let want = a == Some(h) || sc == Some(h);
 		rec.case(&format!("matchscid {} {} {}", a.map_or("-".into(), |x| x.to_string()), sc.map_or("-".into(), |x| x.to_string()), h), if want { "1" } else { "0" }, if want { "matchscid:own-channel" } else { "matchscid:other" }, true);
 	}
+	{ let mut rng3 = Rng::new(args.seed ^ 0xc16f_1857); first_hop_cases(&mut rec, &mut rng3, &w, if args.thorough { 4000 } else { 600 }); }
 	// the deterministic probes of the known findings (fixed inputs; the graph on the line is dumped from NetworkGraph::read_only())
 	for (k, (name, expect, line)) in PROBES.iter().enumerate() {
 		let c = parse_case(line, &w, &secp, &LOGGER).expect("probe line");
@@ -1015,8 +1080,10 @@ fn router_model(args: &Args) {
 		let before = rec.oracle_failures.len();
 		let mut scratch: Vec<lightning::routing::router::Path> = vec![];
 		record(&mut rec, &mut st, &w, &g, &gs, &c.q, nodes, true, true, &c.blinding_points, res, &mut scratch);
+		// a probe that documents admissible / required behaviour (FA-…) and expects a VALID route must get one (C16-r5/b: a sufficient first hop exists)
+		if name.starts_with("FA-") && expect.starts_with("VALID route") && !outcome.ends_with("-> valid") { rec.oracle_fail(format!("probe {}: expected {} but the router answered: {} | {} {}", name, expect, outcome, req_str(&c.q), gs)); }
 		let reproduced = rec.oracle_failures.len() > before;
-		rec.notes.insert(format!("probe_{}", k + 1), format!("{}: {} | unchanged router: {} | this run: {} | input: {} {}", name, if reproduced { "REPRODUCED (oracle failure)" } else if name.starts_with("FA-") { "valid, as it must be" } else { "not reproduced (the router no longer shows it)" }, expect, outcome, req_str(&c.q), gs));
+		rec.notes.insert(format!("probe_{}", k + 1), format!("{}: {} | unchanged router: {} | this run: {} | input: {} {}", name, if reproduced { "REPRODUCED (oracle failure)" } else if name.starts_with("FA-") && outcome.contains("invalid") { "INVALID route" } else if name.starts_with("FA-") { "valid, as it must be" } else { "not reproduced (the router no longer shows it)" }, expect, outcome, req_str(&c.q), gs));
 	}
 	for _ in 0..n_graphs {
 		let n = match rng.below(10) { 0..=5 => rng.range(4, 9), 6..=8 => rng.range(10, 20), _ => rng.range(21, 40) } as usize;
@@ -1114,7 +1181,7 @@ fn router_model(args: &Args) {
 			}
 		}
 	}
-	rec.notes.insert("rule".into(), format!("random NetworkGraphs (4–40 nodes, parallel channels, unknown/known capacities via UTXO stub or partial announcement, zero/extreme fees, disabled directions, missing updates, htlc min/max around the amount), {} plain requests each (amount 1 msat … beyond capacity; max fee / CLTV / path count / path length / saturation / excluded channels varied; ProbabilisticScorer or fixed penalty) + {} EXTENDED requests each ({} in total: first_hops = 1–3 peers x 1–3 ChannelDetails with outbound alias != real scid (some announced channels of the graph), limits/minimums around the amount; 0–3 route hints of 1–3 hops incl. hints naming one of OUR channels by alias or by real scid; or 1–3 blinded tails (raw payinfo or a real BlindedPaymentPath::new, one-hop paths, introduction node = payer / a first-hop peer / any node); excluded channels and blinded-path indices; {} with a ProbabilisticScorer fed with successes/failures of earlier routes, {} with InFlightHtlcs of earlier routes); graph dumped from NetworkGraph::read_only(); every case distinct by op text. routes={} (mpp {} / with a hop at its minimum {} / through a first hop {} (named by the real scid {}) / through a hint hop {} / with a blinded tail {}), router errors={}, panics={}; the completeness oracle of extended requests (a single path through first hops / hints / blinded paths exists and EVERY candidate is ample) was armed on {} requests that returned a route (and is a failure with the request as input when the router returns an error). KNOWN FINDINGS (oracle failures with stable ids, at most 3 reported per id and run, all counted; deterministic minimal inputs: notes probe_1 … probe_7): KF-C16-7 route hints naming a graph channel bypass the graph walk's filters: {} random probe requests carry a route hint (A) whose source is the payer over a channel that is not ours [admissible: a route-hint hop is a way to the payee the property names; these routes must be valid], (B) whose scid is a public channel of the payer missing from first_hops, or (C) whose scid is a public channel whose direction towards the hint's target is disabled; {} routes (probes included) left the payer over such a graph channel although first_hops was supplied (B) or used the disabled direction (C) (the PublicHop candidates made from hints are not filtered by `first_hops.is_none() || source != our_node_id` / `direction().enabled`); the main generator avoids these hint shapes. Example: {}. KF-C16-8 max_path_count: {} requests hit `assertion failed: paths.len() <= payment_params.max_path_count` (a route with too many paths in a release build). Example: {}. KF-C16-9 blind_intros_added stitch: {} requests (max_path_length / used_liquidity assertion, or a returned route violating capacity / length / cltv / fee whose first hop leads to a blinded path's introduction node and continues elsewhere). Example: {}. KF-C16-10 merge rounding: {} routes exceed a limit by 1–2 msat after step (8). Example: {}. KF-C16-11 own-minimum raise not booked: {} routes. Example: {}",
+	rec.notes.insert("rule".into(), format!("random NetworkGraphs (4–40 nodes, parallel channels, unknown/known capacities via UTXO stub or partial announcement, zero/extreme fees, disabled directions, missing updates, htlc min/max around the amount), {} plain requests each (amount 1 msat … beyond capacity; max fee / CLTV / path count / path length / saturation / excluded channels varied; ProbabilisticScorer or fixed penalty) + {} EXTENDED requests each ({} in total: first_hops = 1–3 peers x 1–3 ChannelDetails with outbound alias != real scid (some announced channels of the graph), limits/minimums around the amount; 0–3 route hints of 1–3 hops incl. hints naming one of OUR channels by alias or by real scid; or 1–3 blinded tails (raw payinfo or a real BlindedPaymentPath::new, one-hop paths, introduction node = payer / a first-hop peer / any node); excluded channels and blinded-path indices; {} with a ProbabilisticScorer fed with successes/failures of earlier routes, {} with InFlightHtlcs of earlier routes); graph dumped from NetworkGraph::read_only(); every case distinct by op text. routes={} (mpp {} / with a hop at its minimum {} / through a first hop {} (named by the real scid {}) / through a hint hop {} / with a blinded tail {}), router errors={}, panics={}; the completeness oracle of extended requests (a single path through first hops / hints / blinded paths exists and EVERY candidate is ample) was armed on {} requests that returned a route (and is a failure with the request as input when the router returns an error). KNOWN FINDINGS (oracle failures with stable ids, at most 3 reported per id and run, all counted; deterministic minimal inputs: notes probe_1 … probe_9): KF-C16-7 route hints naming a graph channel bypass the graph walk's filters: {} random probe requests carry a route hint (A) whose source is the payer over a channel that is not ours [admissible: a route-hint hop is a way to the payee the property names; these routes must be valid], (B) whose scid is a public channel of the payer missing from first_hops, or (C) whose scid is a public channel whose direction towards the hint's target is disabled; {} routes (probes included) left the payer over such a graph channel although first_hops was supplied (B) or used the disabled direction (C) (the PublicHop candidates made from hints are not filtered by `first_hops.is_none() || source != our_node_id` / `direction().enabled`); the main generator avoids these hint shapes. Example: {}. KF-C16-8 max_path_count: {} requests hit `assertion failed: paths.len() <= payment_params.max_path_count` (a route with too many paths in a release build). Example: {}. KF-C16-9 blind_intros_added stitch: {} requests (max_path_length / used_liquidity assertion, or a returned route violating capacity / length / cltv / fee whose first hop leads to a blinded path's introduction node and continues elsewhere). Example: {}. KF-C16-10 merge rounding: {} routes exceed a limit by 1–2 msat after step (8). Example: {}. KF-C16-11 own-minimum raise not booked: {} routes. Example: {}",
 		per_graph, per_graph_ext, n_ext, n_fed, n_inflight, st.n_ok, st.n_multi, st.n_raise, st.n_first, st.n_alias_real, st.n_hint, st.n_blinded, st.n_err, st.n_panic, st.n_all_ample, st.n_probe, st.n_bypass, if st.bypass_example.len() > 2500 { &st.bypass_example[..2500] } else { &st.bypass_example[..] }, st.n_count_rounding, if st.count_rounding_example.len() > 2500 { &st.count_rounding_example[..2500] } else { &st.count_rounding_example[..] }, st.n_stitch, if st.stitch_example.len() > 2500 { &st.stitch_example[..2500] } else { &st.stitch_example[..] }, st.n_merge, if st.merge_example.len() > 2500 { &st.merge_example[..2500] } else { &st.merge_example[..] }, st.n_ownmin, if st.ownmin_example.len() > 2500 { &st.ownmin_example[..2500] } else { &st.ownmin_example[..] }));
 	for (i, (k, (n, ex))) in st.debug_asserts.iter().enumerate() {
 		rec.notes.insert(format!("debug_assert_{}", i + 1), format!("find_route hit its own debug assertion: {}, {} times (discarded, not a C16 clause); example input: {}", k, n, if ex.len() > 1500 { &ex[..1500] } else { &ex[..] }));
@@ -1158,6 +1225,8 @@ fn parse_case<L: lightning::util::logger::Logger + 'static>(line: &str, w: &Worl
 		let (id1, id2) = if c[0] == "f" { match (opt(c[1]), opt(c[2])) { (Some(a), r) => (a, r), (None, Some(r)) => (r, None), _ => panic!("first hop without ids") } } else { (num(c[1]), None) };
 		let ch = Chan { kind: Kind::from_tag(c[0]), scid: id1, alt: id2, src: num(c[3]) as usize, dst: num(c[4]) as usize, enabled: c[5] == "1", hmin: num(c[6]), hmax: opt(c[7]).unwrap_or(0), unbounded: c[7] == "-",
 			cap: opt(c[8]), base: num(c[9]), prop: num(c[10]), cltv: num(c[11]) };
+		// first hop: the `cap` token is counterparty.outbound_htlc_minimum_msat, a pure function of (limit, minimum) (see decoy_cp_min)
+		let ch = if ch.kind == Kind::First { Chan { cap: decoy_cp_min(ch.hmax, ch.hmin), ..ch } } else { ch };
 		match ch.kind {
 			Kind::Pub => {
 				let (one, two) = if w.ids[ch.src] < w.ids[ch.dst] { (ch.src, ch.dst) } else { (ch.dst, ch.src) };
